@@ -39,6 +39,7 @@ PROPS["C01"] = {
     "technique": "property-based differential testing: type-directed program generator + reference interpreter oracle (rapid)",
     "tests": [
         {"name": "TestProp", "quick": {"shards": 8, "checks": 6000}, "thorough": {"shards": 16, "checks": 60000}},
+        {"name": "TestEquality", "quick": {"shards": 4, "checks": 3000}, "thorough": {"shards": 8, "checks": 30000}},
     ],
     "rule": "cases: generated well-typed programs (declarations, assignments, prints over expression trees of depth 1-5 with every operator on "
             "num/string/bool/array/map/any operands, tracer functions that print when evaluated, user functions, index/slice/dot/group), "
